@@ -8,7 +8,7 @@ from pyvc.extract import Module
 F_CP = 'atsim/potentials/config/_config_parser.py'
 F_Q = 'atsim/potentials/tools/potable/_query_actions.py'
 import contracts.rawparser as RPc
-FUNCTIONS = [(F_CP, '_RawConfigParser.has_option'), (F_CP, '_RawConfigParser.options')]
+FUNCTIONS = [(F_CP, '_RawConfigParser.has_option'), (F_CP, '_RawConfigParser.options'), (F_CP, '_RawConfigParser.get')]
 
 def proxy_sites():
     """every place where code iterates over / tests membership in / takes the length of a section proxy of the raw parser"""
@@ -34,10 +34,9 @@ def lemmas():
     #     options()/has_option() (A5), which are restricted to the section's own dictionary
     # has_option() and options() are under Engine A contracts (contracts/rawparser.py): exactly the section's own keys, [Variables] aside
     # (2) a variable never stands in for an option the section does not define; ${NAME} is the variable
-    out.append(S('C15', F_CP, '_RawConfigParser.get', 'value-from-the-section-itself',
-                 ['sectiondict = self._sections[section]', "if not option in sectiondict:\n if 'fallback' in kwargs:\n return kwargs['fallback']\n raise configparser.NoOptionError(option, section)", 'value = sectiondict[option]']))
-    out.append(S('C15', F_CP, '_RawConfigParser.get', 'placeholders-resolve-to-variables-first',
-                 ['lookup = collections.ChainMap(self._defaults, sectiondict)', 'return self._interpolation.before_get(self, section, option, value, lookup)']))
+    # _RawConfigParser.get is under an Engine A contract (contracts/rawparser.py): the value of an option of the section itself; an option the section does not
+    # define is not supplied by a variable of the same name (only an explicit fallback is returned); place-holders are resolved against [Variables] first, then the
+    # section's own options (A5: ExtendedInterpolation.before_get is a function of the value and the lookup mapping); interpolation errors become configuration errors
     out.append(S('C15', F_CP, '_RawConfigParser.__init__', 'variables-is-the-interpolation-default-section', ["default_section='Variables'", 'interpolation=configparser.ExtendedInterpolation()']))
     sites = proxy_sites()
     out.append(B.static_obligation('C15/_config_parser.py/section-proxy-sites-enumerated', len(sites) >= 10, 'config package', F_CP, '%d sites' % len(sites)))
@@ -61,6 +60,9 @@ def lemmas():
     return out
 
 MUTANTS = [
+    (F_CP, '_RawConfigParser.get', "collections.ChainMap(self._defaults, sectiondict)", "collections.ChainMap(sectiondict, self._defaults)", 'post'),
+    (F_CP, '_RawConfigParser.get', "raise configparser.NoOptionError(option, section)", "return self._defaults[option]", 'post'),
+    (F_CP, '_RawConfigParser.get', "raise ConfigParserException(e.message)", "raise", 'raises'),
     (F_CP, '_RawConfigParser.has_option', "return option in self._sections[section]", "return option in self._sections[section] or option in self._defaults", 'post'),
     (F_CP, '_RawConfigParser.has_option', "elif section not in self._sections:", "elif section in self._sections:", 'post'),
     (F_CP, '_RawConfigParser.options', "return list(self._sections[section].keys())", "return list(self._defaults.keys())", 'post'),
@@ -68,8 +70,8 @@ MUTANTS = [
 ]
 MODULE_MUTANTS = [
     (F_CP, "      return list(self._sections[section].keys())\n    except KeyError:", "      return list(self._sections[section].keys()) + list(self._defaults.keys())\n    except KeyError:", '_RawConfigParser.options'),
-    (F_CP, "    lookup = collections.ChainMap(self._defaults, sectiondict)\n", "    lookup = collections.ChainMap(sectiondict, self._defaults)\n", 'placeholders-resolve'),
-    (F_CP, "    if not option in sectiondict:\n      if 'fallback' in kwargs:\n        return kwargs['fallback']\n      raise configparser.NoOptionError(option, section)\n", "    if not option in sectiondict:\n      return super(_RawConfigParser, self).get(section, option, **kwargs)\n", 'value-from-the-section-itself'),
+    (F_CP, "    lookup = collections.ChainMap(self._defaults, sectiondict)\n", "    lookup = collections.ChainMap(sectiondict, self._defaults)\n", 'get/post'),
+    (F_CP, "    if not option in sectiondict:\n      if 'fallback' in kwargs:\n        return kwargs['fallback']\n      raise configparser.NoOptionError(option, section)\n", "    if not option in sectiondict:\n      return super(_RawConfigParser, self).get(section, option, **kwargs)\n", 'get/'),
 ]
 ENGINE_B_FUNCTIONS = [(F_CP, '_RawConfigParser.get'), (F_CP, '_RawConfigParser.__init__')]
 ASSUMPTIONS = ['A5: SectionProxy iteration/len use parser.options(section); `k in proxy` uses parser.has_option; proxy[k] and proxy.get(k) use parser.get(section, k); ExtendedInterpolation.before_get(parser, section, option, value, map) substitutes ${NAME} from map and ${S:K} through parser.get(S, K)',
